@@ -25,7 +25,7 @@ from hv import common as C
 from gen import calc_gen as G
 from gen import topo_sources as TS
 
-TOOLS = ["hwloc-calc", "hwloc-distrib", "hwloc-diff", "hwloc-patch"]
+TOOLS = ["hwloc-calc", "hwloc-distrib", "hwloc-diff", "hwloc-patch", "hwloc-info"]
 LSTOPO_SRC = ["lstopo.c", "lstopo-draw.c", "lstopo-tikz.c", "lstopo-fig.c", "lstopo-svg.c", "lstopo-ascii.c",
               "lstopo-text.c", "lstopo-xml.c", "lstopo-shmem.c", "../hwloc/common-ps.c"]
 CRASH_RC = (96, 97, 98, 124, 134, 139)
@@ -47,7 +47,7 @@ def build_tools():
     """The tools are not part of libhwloc_v.a: compile the current utils/ sources against it.
     Cached under build/tools/<hash of library + utils sources>."""
     lib = C.build_lib(True)
-    h = C.file_hash(_tool_sources() + C.repo_source_files(), extra="tools-asan")
+    h = C.file_hash(_tool_sources() + C.repo_source_files(), extra="tools-asan " + " ".join(TOOLS))
     d = os.path.join(C.BUILD, "tools", h)
     names = TOOLS + ["lstopo-no-graphics"]
     if all(os.path.exists(os.path.join(d, n)) for n in names):
@@ -491,24 +491,30 @@ class Ctx:
 
 
 def split_kind(kind):
-    """kind is "synthetic" | "xml", optionally followed by "@<set>": the topology is restricted to that cpuset
-    after the load (the tools' --restrict, default flags: CPU-less memory and its parents are kept)"""
+    """kind is "synthetic" | "xml", optionally followed by "@<set>[/<restrict flags>]": the topology is restricted to
+    that cpuset after the load (the tools' --restrict [--restrict-flags], default flags 0: CPU-less memory and its
+    parents are kept)"""
     k, _, r = kind.partition("@")
-    return k, (r or None)
+    r, _, fl = r.partition("/")
+    return k, (r or None), int(fl or 0)
 
 
 def topo_args(kind, arg):
-    k, r = split_kind(kind)
+    k, r, fl = split_kind(kind)
     base = ["-i", arg] if k == "synthetic" else ["-i", arg, "--if", "xml"]
-    return base + (["--restrict", r] if r else [])
+    if r:
+        base += ["--restrict", r]
+        if fl:
+            base += ["--restrict-flags", str(fl)]
+    return base
 
 
 def ref_load(ref, tool, kind, arg):
     """load (and restrict) in the reference the way the tool does; returns the reply lines of the final dump"""
-    k, r = split_kind(kind)
+    k, r, fl = split_kind(kind)
     lines = ref.ask("topo %s %s %s" % (tool, k, arg))
     if r and lines and lines[0] == "load rc=0":
-        l2 = ref.ask("restrict 0 %s" % r)
+        l2 = ref.ask("restrict %d %s" % (fl, r))
         if not l2 or l2[0] != "restrict rc=0":
             return ["load rc=-3"]
         return ["load rc=0"] + l2[1:]
@@ -1239,7 +1245,9 @@ def check_distrib(ctx, kind, arg, tag, rng):
         info = G.Info(lines[1:])
         npu = info.npus()
         root = info.root["cs"]
-        normal = [d for d in range(info.depth) if info.levels.get(d)]
+        # levels usable as --from/--to: no CPU-less object among the roots (hwloc_distrib on such roots: C09 finding)
+        normal = [d for d in range(info.depth) if info.levels.get(d) and not any(o["cs"].is_empty() for o in info.level(d))]
+        pft = 0.85 if "@" in kind else 0.45
         for n in sorted(set([1, 2, npu - 1, npu, npu + 1, rng.randrange(1, 2 * npu + 2), 0])):
             if n < 0:
                 continue
@@ -1251,7 +1259,7 @@ def check_distrib(ctx, kind, arg, tag, rng):
             # --from / --to / --at: several roots, bounded depth
             d_from, d_to = 0, 2147483647
             r = rng.random()
-            if r < 0.45 and len(normal) > 1:
+            if r < pft and len(normal) > 1:
                 d_from = rng.choice(normal)
                 if rng.random() < 0.5:
                     d_to = rng.choice([d for d in normal if d >= d_from])
@@ -1262,7 +1270,7 @@ def check_distrib(ctx, kind, arg, tag, rng):
                                   "--to", G.type_spelling(rng, info, d_to, info.level_type[d_to])]
                 else:
                     extra += ["--from", G.type_spelling(rng, info, d_from, info.level_type[d_from])]
-            elif r < 0.6 and normal:
+            elif r < pft + 0.15 and normal:
                 d_to = rng.choice(normal)
                 extra += ["--to", G.type_spelling(rng, info, d_to, info.level_type[d_to])]
             if any(a.isdigit() for a in extra[1:] if a not in ("--reverse",)) :
@@ -1293,8 +1301,10 @@ def check_distrib(ctx, kind, arg, tag, rng):
                 what = "a set is not included in the root cpuset"
             elif not single and n > 0 and union_all(sets) != roots_cs:
                 what = "the union of the sets is not the union of the roots"
-            elif n <= nleaves and not pairwise_disjoint(sets):
-                what = "sets overlap although N <= number of objects at the last depth"
+            elif leaf_depth == info.depth - 1 and n <= nleaves and not pairwise_disjoint(sets):
+                # (with --to above the PUs hwloc_distrib splits by cpuset weight and may give one object to two
+                # items although there are enough objects: not a C09 guarantee; equality with the library decides)
+                what = "sets overlap although N <= number of PUs"
             elif single and any(s.weight() != 1 for s in sets):
                 what = "--single set of weight != 1"
             if what:
@@ -1322,6 +1332,59 @@ def check_distrib(ctx, kind, arg, tag, rng):
                               replay_text(kind, arg, "hwloc-distrib", bad, err.decode(errors="replace")[-2000:]))
             elif bad and bad[0] == "--bogus" and rc == 0:
                 ctx.violation("exit:distrib:bogus", "hwloc-distrib accepted an unknown option", replay_text(kind, arg, "hwloc-distrib", bad))
+    finally:
+        ref.close()
+
+
+def check_info_restrict(ctx, kind, arg, tag, rng):
+    """hwloc-info --restrict S --ancestor T pu:0 / --descendants T machine:0 name objects of type T of the
+    RESTRICTED topology (same ordering question as hwloc-distrib: types must be resolved after the restrict)"""
+    tool = ctx.tools["hwloc-info"]
+    ref = Ref(ctx.refexe)
+    try:
+        lines = ref_load(ref, "lstopo", kind, arg)
+        if not lines or lines[0] != "load rc=0":
+            return
+        info = G.Info(lines[1:])
+        pus = info.level(info.depth - 1)
+        if not pus:
+            return
+        # ancestors of PU L#0 by depth
+        anc = {}
+        o = pus[0]
+        while o["par"] not in ("-", "?"):
+            o = info.objs[int(o["par"])]
+            if o["dp"] >= 0:
+                anc[o["dp"]] = o
+        for d in sorted(anc):
+            ty = info.level_type[d]
+            if info.tdepth.get(ty, -1) != d:
+                continue                       # type with several depths: hwloc-info refuses it
+            name = rng.choice(G.SPELL.get(ty, [G.TYPE_NAMES[ty]]))
+            for mode in ("ancestor", "descendants"):
+                args = ["--" + mode, name, "pu:0" if mode == "ancestor" else "machine:0"]
+                rc, out, err = run_tool(tool, topo_args(kind, arg) + args)
+                ctx.count("info|%s|%s|%s" % (arg, args, out[:80]), nontrivial=True, kind="info-" + mode)
+                rtxt = replay_text(kind, arg, "hwloc-info", args, "stdout:\n" + out.decode("latin-1")[:400])
+                if crashed(rc, err):
+                    ctx.violation("crash:info:%s:%s" % (tag, name), "hwloc-info crashed on %r" % (args,), rtxt)
+                    continue
+                first = out.decode("latin-1").split("\n")[0]
+                m = re.match(r"(\S+) L#(\d+) = (parent of PU L#0|descendant #0 of Machine L#0)", first)
+                if rc != 0 or not m:
+                    ctx.violation("info-ancestor-stale-depth" if "@" in kind else "info:%s:%s" % (tag, name),
+                                  "hwloc-info %r: rc=%d first line %r, expected an object of the %s level" % (args, rc, first, G.TYPE_NAMES[ty]), rtxt)
+                    continue
+                r = ref.ask("typedepth " + m.group(1))
+                mm = re.match(r"typedepth (-?\d+) (-?\d+) (-?\d+)", r[0]) if r else None
+                got_depth = int(mm.group(3)) if mm and int(mm.group(1)) >= 0 else None
+                want_li = anc[d]["li"] if mode == "ancestor" else 0
+                if got_depth != d or int(m.group(2)) != want_li:
+                    ctx.violation("info-ancestor-stale-depth" if "@" in kind else "info:%s:%s" % (tag, name),
+                                  "hwloc-info %r on the restricted topology names %r; the %s of type %s is %s L#%d (depth %d)"
+                                  % (args, first, mode, name, G.TYPE_NAMES[ty], want_li, d), rtxt)
+                else:
+                    ctx.bump("info-%s-ok" % mode)
     finally:
         ref.close()
 
@@ -1430,6 +1493,15 @@ def check(run, replay=None):
         for r, s in [("0x3", "pack:2 die:2 [numa] pu:2"), ("0x5", "pack:2 [numa] core:2 pu:2"), ("0x30", "numa:3 core:2 pu:1"),
                      ("0xc", "pack:2 [numa] die:2 [numa] pu:2"), ("0x1", "group:2 [numa] pack:2 [numa] pu:1")]:
             topos.append(("synthetic@" + r, s))
+        # ... and restricts after which a level disappears: a Group level with one Group left (merged away with the
+        # default filters of hwloc-distrib), packages reduced to one core, with and without REMOVE_CPULESS
+        for r, s in [("0xff", "group:2 pack:2 core:2 pu:2"), ("0xf/1", "group:2 pack:2 core:2 pu:2"), ("0x3", "pack:2 core:2 pu:2"),
+                     ("0xf0", "group:2 group:2 pack:2 pu:2"), ("0x33/1", "pack:2 [numa] l2:2 core:1 pu:2"), ("0xf", "numa:2 group:2 core:2 pu:1")]:
+            topos.append(("synthetic@" + r, s))
+        # an asymmetric topology (XML): the restrict removes the whole Group level even with KEEP_ALL filters
+        irr = os.path.join(C.REPO, "tests/hwloc/xml/irregulargroups-disallowed.xml")
+        if os.path.exists(irr):
+            topos.append(("xml@0x1", irr))
         k = 0
         while k < (12 if thorough else 4):
             s = TS.gen_synthetic(rng, max_pus=32)
@@ -1470,8 +1542,10 @@ def check(run, replay=None):
                 check_lstopo(ctx, kind, arg, tag)
             for k in range(3 if thorough else 1):
                 check_diff_patch(ctx, kind, arg, "%s-%d" % (tag, k), r)
-            if (i % 2 == 1 or thorough) and "@" not in kind:
+            if i % 2 == 1 or thorough or "@" in kind:
                 check_distrib(ctx, kind, arg, tag, r)
+            if "@" in kind or i % 4 == 0:
+                check_info_restrict(ctx, kind, arg, tag, r)
 
         # corpus topologies that are not in the list get their own entry
         for c in corpus:
